@@ -50,16 +50,37 @@
        vertex j up to slope * Dfrac + E19
        (C19_vertex_fraction_position_partial).
 
+     - ACROSS segments, for the lengths calculate_length itself computes
+       (natural path 0: zero seed, no requested length), under the magnitude
+       hypotheses of C16_cumulative_lengths_ieee_bound (|c| <= 2^20, every
+       segment degenerate or >= 2^-10 long, <= 2^50 vertices, exact length
+       <= 2^1000): chord <= arc for the IEEE lengths,
+         |p_{k+1} - p_k| <= (1 + delta19) (l_{k+1} - l_k) + eta19 l_{k+1},
+       delta19 = 3.02 * 2^-24, eta19 = 1.002 * 2^-53
+       (C19_chord_le_length_increment_ieee), its chain over any run of
+       vertices (C19_chain_vertices_ieee), and the GLOBAL Lipschitz bound:
+       a on segment i, b on segment j >= i (segment indices and the
+       per-segment hypotheses given) -- per coordinate and Euclidean
+         |pos a - pos b| <= (1 + delta19) |b - a| + (j - i + 1) eta19 l_{j+1}
+                            + E19(segment i) + E19(segment j)
+       (C19_global_lipschitz_ieee, C19_global_lipschitz_ieee_adjacent).
+
    NOT proved (the property stays PARTIAL): vertex hits through
    lengths[j] / dist when several vertices' cumulative lengths lie within
-   Dfrac of each other (needs a bound on the accumulated rounding error of
-   the running sums, which is not in this development); the GLOBAL Lipschitz
-   bound across segments in IEEE arithmetic (the per-segment IEEE bound and
-   the exact-arithmetic global bound are there; their combination needs the
-   same accumulated-error bound).  These are monitored by the search oracle of
-   harness/src/c19.rs with the rounding slack 1e-3 + 4e-6 * (magnitude + dist)
-   (4e-6 = 67 * 2^-24), which is wider than the proved per-segment bound
-   (at most 7.02 * 2^-24 * magnitude per coordinate). *)
+   Dfrac of each other (the accumulated-error bound it needed is now there:
+   C19_chord_le_length_increment_ieee / C19_chain_vertices_ieee bound the
+   distance between the vertices of such a cluster; what is missing is the
+   case analysis of where the search lands inside the cluster, near-zero
+   segments -- guard true -- included); the global bound is stated with the
+   segment indices as hypotheses, not yet through the search contract
+   (C19_search_contract_ieee gives l_{i-1} <= d <= l_i for the index it
+   returns; the guard-true segments again need their own case), and only for
+   the natural lengths -- not for a curve cut or extended to a requested
+   length, nor for the osu! Catmull surplus lengths.  These are monitored by
+   the search oracle of harness/src/c19.rs with the rounding slack
+   1e-3 + 4e-6 * (magnitude + dist) (4e-6 = 67 * 2^-24), which is wider than
+   the proved bounds (at most 7.02 * 2^-24 * magnitude per coordinate and
+   segment end, plus 3.02 * 2^-24 |b - a|). *)
 From Coq Require Import Reals.
 From Flocq Require Import IEEE754.BinarySingleNaN.
 From RM Require Import Model.ControlPoints Model.Curve Proofs.PositionFacts Proofs.LengthFacts
@@ -734,12 +755,15 @@ Print Assumptions C19_search_contract_ieee.
    resp. the next segment's.
    MISSING: (1) clusters of vertices whose cumulative lengths differ by less
    than Dfrac -- the search may land on another vertex of the cluster, and
-   bounding its distance to vertex j needs "chord <= arc" for the IEEE lengths,
-   i.e. a bound on the accumulated error of the running sums, which this
-   development does not have; (2) the first and the last vertex (covered
-   separately by C19_progress_zero_is_first_vertex and
+   bounding its distance to vertex j needs "chord <= arc" for the IEEE lengths
+   (now proved for the natural lengths: C19_chord_le_length_increment_ieee and
+   C19_chain_vertices_ieee at the end of this file; the case analysis of the
+   search inside a cluster is what remains); (2) the first and the last vertex
+   (covered separately by C19_progress_zero_is_first_vertex and
    C19_progress_one_repeated_last_length); (3) slope <= 1 + rounding for the
-   lengths calculate_length computes (same missing accumulated-error bound) *)
+   lengths calculate_length computes: proved for the natural lengths as
+   slope * (d1 - d0) <= (1 + delta19) (d1 - d0) + eta19 d1
+   (C19_chord_le_length_increment_ieee), not for adjusted / surplus lengths *)
 Theorem C19_vertex_fraction_position_partial :
   forall (path : list Pos) (lens : list F64) j p0 p1 p2 l0 l1 l2,
   let L := Curve.dist lens in
@@ -763,3 +787,121 @@ Example C19_vertex_fraction_example :
     (Rabs (B2R (px q) - 3) <= 1.4 / 1000000)%R /\ (Rabs (B2R (py q) - 4) <= 3.2 / 1000000)%R.
 Proof. split; [exact ex_sorted|]. split; [exact ex_frac_hyps|exact ex_frac_bound]. Qed.
 Print Assumptions C19_vertex_fraction_example.
+
+(* ================================================================== *)
+(* T19-IEEE across segments: chord <= arc for the computed lengths and *)
+(* the GLOBAL Lipschitz bound                                          *)
+(* ================================================================== *)
+From RM Require Import Proofs.AdjustIEEESum Proofs.InterpIEEEGlobal.
+
+(* the constants and the hypotheses on the path, spelled out *)
+Theorem C19_global_definitions :
+  delta19 = (3.02 * u32)%R /\ eta19 = (1.002 * u64)%R /\
+  u32 = (/ 16777216)%R /\ u64 = (/ 9007199254740992)%R /\
+  (forall a b, seg_ok a b <-> (R2 a = R2 b \/ (Raux.bpow Zaux.radix2 (-10) <= edist (R2 a) (R2 b))%R)) /\
+  (forall a b t, segs_ok (a :: b :: t) <-> seg_ok a b /\ segs_ok (b :: t)) /\
+  (forall p k, coord_le p k <-> bnd32 (px p) k /\ bnd32 (py p) k) /\
+  (forall path, natural path D.zero = D.zero :: fst (cum_lengths D.zero path)).
+Proof. split; [|split; [|split; [|split; [|split; [|split; [|split]]]]]]; intros; reflexivity. Qed.
+Print Assumptions C19_global_definitions.
+
+(* chord <= arc for the lengths calculate_length computes (zero seed, no
+   requested length): coordinates finite with |c| <= 2^20, every segment
+   degenerate or at least 2^-10 long, at most 2^50 vertices, exact length at
+   most 2^1000.  Two consecutive computed cumulative lengths are finite,
+   ordered, and the exact chord is at most (1 + delta19) times their
+   difference plus eta19 * l_{k+1} (the rounding of the one binary64 addition
+   is relative to the sum, not to the increment) *)
+Theorem C19_chord_le_length_increment_ieee :
+  forall (path : list Pos) k p0 p1 d0 d1,
+  Forall (fun p => coord_le p 20) path -> segs_ok path -> (length path <= 2 ^ 50)%nat ->
+  (poly_len (map R2 path) <= Raux.bpow Zaux.radix2 1000)%R ->
+  nth_error path k = Some p0 -> nth_error path (S k) = Some p1 ->
+  nth_error (natural path D.zero) k = Some d0 -> nth_error (natural path D.zero) (S k) = Some d1 ->
+  is_finite d0 = true /\ is_finite d1 = true /\ (0 <= B2R d0 <= B2R d1)%R /\
+  (edist (R2 p0) (R2 p1) <= (1 + delta19) * (B2R d1 - B2R d0) + eta19 * B2R d1)%R.
+Proof. exact chord_le_length_increment_ieee. Qed.
+Print Assumptions C19_chord_le_length_increment_ieee.
+
+(* from vertex i to vertex i + n along the computed lengths *)
+Theorem C19_chain_vertices_ieee :
+  forall (path : list Pos),
+  Forall (fun p => coord_le p 20) path -> segs_ok path -> (length path <= 2 ^ 50)%nat ->
+  (poly_len (map R2 path) <= Raux.bpow Zaux.radix2 1000)%R ->
+  forall n i pi pj li lj,
+  nth_error path i = Some pi -> nth_error path (i + n) = Some pj ->
+  nth_error (natural path D.zero) i = Some li -> nth_error (natural path D.zero) (i + n) = Some lj ->
+  (B2R li <= B2R lj)%R /\
+  (edist (R2 pi) (R2 pj) <= (1 + delta19) * (B2R lj - B2R li) + INR n * eta19 * B2R lj)%R.
+Proof. exact chain_vertices. Qed.
+Print Assumptions C19_chain_vertices_ieee.
+
+(* the GLOBAL Lipschitz bound in IEEE arithmetic: a on segment i, b on segment
+   j >= i (the segment indices and the per-segment hypotheses of
+   C19_interpolation_ieee_bound are given): per coordinate and in Euclidean
+   distance the computed positions are at most
+     (1 + delta19) |b - a| + (j - i + 1) eta19 l_{j+1} + E19(segment i) + E19(segment j)
+   apart *)
+Theorem C19_global_lipschitz_ieee :
+  forall (path : list Pos) i j a b p0 p1 d0 d1 q0 q1 e0 e1,
+  Forall (fun p => coord_le p 20) path -> segs_ok path -> (length path <= 2 ^ 50)%nat ->
+  (poly_len (map R2 path) <= Raux.bpow Zaux.radix2 1000)%R ->
+  (i <= j)%nat ->
+  nth_error path i = Some p0 -> nth_error path (S i) = Some p1 ->
+  nth_error (natural path D.zero) i = Some d0 -> nth_error (natural path D.zero) (S i) = Some d1 ->
+  nth_error path j = Some q0 -> nth_error path (S j) = Some q1 ->
+  nth_error (natural path D.zero) j = Some e0 -> nth_error (natural path D.zero) (S j) = Some e1 ->
+  interp_hyps p0 p1 d0 d1 a -> interp_hyps q0 q1 e0 e1 b ->
+  let Eax := E19 (B2R (px p0)) (B2R (px p1)) in
+  let Eay := E19 (B2R (py p0)) (B2R (py p1)) in
+  let Ebx := E19 (B2R (px q0)) (B2R (px q1)) in
+  let Eby := E19 (B2R (py q0)) (B2R (py q1)) in
+  let G := ((1 + delta19) * Rabs (B2R b - B2R a) + INR (j - i + 1) * eta19 * B2R e1)%R in
+  exists qa qb,
+    interpolate_vertices path (natural path D.zero) (S i) a = Done qa /\
+    interpolate_vertices path (natural path D.zero) (S j) b = Done qb /\
+    (Rabs (B2R (px qa) - B2R (px qb)) <= G + Eax + Ebx)%R /\
+    (Rabs (B2R (py qa) - B2R (py qb)) <= G + Eay + Eby)%R /\
+    (edist (R2 qa) (R2 qb) <= G + (Eax + Eay) + (Ebx + Eby))%R.
+Proof. exact global_lipschitz_ieee. Qed.
+Print Assumptions C19_global_lipschitz_ieee.
+
+(* two points in adjacent segments *)
+Theorem C19_global_lipschitz_ieee_adjacent :
+  forall (path : list Pos) i a b p0 p1 p2 d0 d1 d2,
+  Forall (fun p => coord_le p 20) path -> segs_ok path -> (length path <= 2 ^ 50)%nat ->
+  (poly_len (map R2 path) <= Raux.bpow Zaux.radix2 1000)%R ->
+  nth_error path i = Some p0 -> nth_error path (S i) = Some p1 -> nth_error path (S (S i)) = Some p2 ->
+  nth_error (natural path D.zero) i = Some d0 -> nth_error (natural path D.zero) (S i) = Some d1 ->
+  nth_error (natural path D.zero) (S (S i)) = Some d2 ->
+  interp_hyps p0 p1 d0 d1 a -> interp_hyps p1 p2 d1 d2 b ->
+  let G := ((1 + delta19) * (B2R b - B2R a) + 2 * eta19 * B2R d2)%R in
+  exists qa qb,
+    interpolate_vertices path (natural path D.zero) (S i) a = Done qa /\
+    interpolate_vertices path (natural path D.zero) (S (S i)) b = Done qb /\
+    (Rabs (B2R (px qa) - B2R (px qb)) <= G + E19 (B2R (px p0)) (B2R (px p1)) + E19 (B2R (px p1)) (B2R (px p2)))%R /\
+    (Rabs (B2R (py qa) - B2R (py qb)) <= G + E19 (B2R (py p0)) (B2R (py p1)) + E19 (B2R (py p1)) (B2R (py p2)))%R /\
+    (edist (R2 qa) (R2 qb) <= G + (E19 (B2R (px p0)) (B2R (px p1)) + E19 (B2R (py p0)) (B2R (py p1)))
+                                + (E19 (B2R (px p1)) (B2R (px p2)) + E19 (B2R (py p1)) (B2R (py p2))))%R.
+Proof. exact global_lipschitz_ieee_adjacent. Qed.
+Print Assumptions C19_global_lipschitz_ieee_adjacent.
+
+(* on the polyline (0,0) (3,4) (8,16) with the lengths calculate_length
+   computes: distance 2 lies on the first segment, distance 9 on the second
+   (that is where the search puts them), the hypotheses hold, and the two
+   computed positions -- (1.2, 1.6) and (4.5384617, 7.692308) -- are at most
+   |9 - 2| + 1e-5 apart *)
+Example C19_global_lipschitz_example :
+  (exists qa qb,
+     interpolate_vertices ex_path (natural ex_path D.zero) 1 (D.of_Z 2) = Done qa /\
+     interpolate_vertices ex_path (natural ex_path D.zero) 2 (D.of_Z 9) = Done qb /\
+     (edist (R2 qa) (R2 qb) <= 7 + 1 / 100000)%R) /\
+  (idx_of_dist (natural ex_path D.zero) (D.of_Z 2), idx_of_dist (natural ex_path D.zero) (D.of_Z 9)) = (1%nat, 2%nat) /\
+  dump_out dump_pos (interpolate_vertices ex_path (natural ex_path D.zero) 1 (D.of_Z 2))
+  = [0%Z; S.bits (S.of_decimal false 12 (-1)); S.bits (S.of_decimal false 16 (-1))] /\
+  dump_out dump_pos (interpolate_vertices ex_path (natural ex_path D.zero) 2 (D.of_Z 9))
+  = [0%Z; S.bits (S.of_decimal false 45384617 (-7)); S.bits (S.of_decimal false 7692308 (-6))].
+Proof.
+  split; [exact ex_global_lipschitz|]. split; [vm_compute; reflexivity|]. split; vm_compute; reflexivity.
+Qed.
+Print Assumptions C19_global_lipschitz_example.
